@@ -934,9 +934,24 @@ def cache(fun):
                 cache[key] = out
         else:
             out = cache[key]
+            if _VERIF_CACHE_CHECKER is not None:
+                # TENSORDICT_VERIF=1 only: hand the cached value and a fresh recomputation to the registered checker
+                _VERIF_CACHE_CHECKER(
+                    fun.__name__, _self, args, kwargs, out, fun(_self, *args, **kwargs)
+                )
         return out
 
     return newfun
+
+
+# Verification hook (no effect unless TENSORDICT_VERIF=1 and a checker is registered)
+_VERIF_CACHE_CHECKER = None
+
+
+def _verif_register_cache_checker(checker):
+    global _VERIF_CACHE_CHECKER
+    if os.environ.get("TENSORDICT_VERIF") == "1":
+        _VERIF_CACHE_CHECKER = checker
 
 
 def erase_cache(fun):
